@@ -1033,7 +1033,7 @@ fn exact_lu(rng: &mut StdRng, n: usize, p: usize, q: usize, swaps: bool, nodd: u
     let mut l4 = vec![vec![0i64; n]; n]; let mut u = vec![vec![0i64; n]; n];
     for i in 0..n { for j in 0..n {
         if i == j { l4[i][j] = 4; let b = if rng.gen_bool(0.3) { 2 } else { 1 }; u[i][j] = pm(rng, b); }
-        else if i > j && i - j <= p { l4[i][j] = [0i64, 1, -1, 2, -2][rng.gen_range(0..5)]; }
+        else if i > j && i - j <= p { l4[i][j] = [0i64, 1, -1, 2, -2, 1, -2][rng.gen_range(0..7)]; }
         else if j > i && j - i <= q { u[i][j] = rng.gen_range(-mag..=mag); }
     } }
     for _ in 0..nodd { let k = rng.gen_range(0..n); let v = ODD_PIVOTS[rng.gen_range(0..ODD_PIVOTS.len())]; u[k][k] = pm(rng, v); }
@@ -1057,7 +1057,7 @@ fn lu_case(rng: &mut StdRng, a: &[Vec<i64>], b: &[i64], m1: usize, m2: usize, ty
 fn exact_and_sweep(rng: &mut StdRng, quick: bool, seed: u64, push: &mut dyn FnMut(Value)) {
     // (j) awkward pivots (f64 exact, also Rat and Complex)
     for n in 1..=8usize { for rep in 0..(if quick { 4 } else { 20 }) {
-        for t in 0..60 { let w = if n >= 6 { 2 } else { 3 }; let (pp, qq) = (rng.gen_range(0..n.min(w)), rng.gen_range(0..n.min(w))); let (a, b, m1, m2) = exact_lu(rng, n, pp, qq, rep % 2 == 1, if t < 30 { 2 } else { 1 }, 3);
+        for t in 0..60 { let w = if n >= 6 { 2 } else { 3 }; let (pp, qq) = (if n >= 2 { rng.gen_range(1..n.min(w).max(2)) } else { 0 }, rng.gen_range(0..n.min(w))); let (a, b, m1, m2) = exact_lu(rng, n, pp, qq, rep % 2 == 1, if t < 30 { 2 } else { 1 }, 3);
             let ai: Vec<Vec<i128>> = a.iter().map(|r| r.iter().map(|x| *x as i128).collect()).collect();
             if fits_tlc(&ai, &b) && m1 < n && m2 < n { let tys: Vec<&str> = if quick { vec!["f64", TYS[(rep + n) % 3]] } else { TYS.to_vec() };
                 for ty in tys { let mut c = lu_case(rng, &a, &b, m1, m2, ty, "odd-pivots"); if quick && rep % 2 == 0 { c["aux"] = json!(false); } push(c); } break; } }
@@ -1070,7 +1070,7 @@ fn exact_and_sweep(rng: &mut StdRng, quick: bool, seed: u64, push: &mut dyn FnMu
             if cx && (k < -530 || k > 500 || (quick && idx % 2 == 1)) { continue; }
             let n = if variant == 1 { 1 } else { 2 + idx % 5 };
             for t in 0..60 { let mag = if t < 20 { 2 } else { 1 };
-                let (pp, qq) = (rng.gen_range(0..n.min(3)), rng.gen_range(0..n.min(3))); let (a, b, m1, m2) = exact_lu(rng, n, pp, qq, idx % 3 == 0, 0, mag);
+                let (pp, qq) = (if n >= 2 { rng.gen_range(1..n.min(3).max(2)) } else { 0 }, rng.gen_range(0..n.min(3))); let (a, b, m1, m2) = exact_lu(rng, n, pp, qq, idx % 3 == 0, 0, mag);
                 let mx = a.iter().flatten().chain(b.iter()).map(|x| x.abs()).max().unwrap_or(1).max(1); let bits = 64 - (mx as u64).leading_zeros() as i64 + 3;
                 let both = idx % 2 == 0 || k.abs() > 1000;
                 if !(k + bits <= 1022 && k >= -1072 && (both || (-k + bits <= 1022 && -k - bits >= -1060))) { continue; }
@@ -1079,6 +1079,7 @@ fn exact_and_sweep(rng: &mut StdRng, quick: bool, seed: u64, push: &mut dyn FnMu
                 let kn = k * n as i64; if kn + 2 * n as i64 + 6 > 1022 || kn < -1070 || (cx && (kn < -530 || kn > 500)) { c["nodet"] = json!(true); }
                 push(c); break; }
         }
-        k += step as i64;
+        // (finer grid in the subnormal range and next to the overflow threshold)
+        k += if k < -1016 || k >= 996 { (step as i64).min(2) } else { step as i64 };
     }
 }
